@@ -8,7 +8,7 @@ from . import spec as S
 from . import frontend as F
 from .values import Val, UnsupportedError
 from .state import State, Raise, GlobalRef, BoundMethod
-from .speceval import SpecEval, SpecError, const_value, pure_len, pure_str, pure_method, apply_uf, fold_facts_append, fold_facts_concat
+from .speceval import generalize_facts, SpecEval, SpecError, const_value, pure_len, pure_str, pure_method, apply_uf, fold_facts_append, fold_facts_concat
 from .exec_expr import ExprMixin
 from .exec_core import _has_quantifier, LOG_ROOTS, DROPPED_CALLS
 
@@ -145,6 +145,13 @@ class CallMixin(ExprMixin):
                     yield Raise("AttributeError", node.lineno), st
                     return
                 raise UnsupportedError(f"no contract for method {v.ty.name}.{attr} (line {node.lineno})")
+            if c.file and not c.inline and c.kind == "verified":
+                try:
+                    if F.find_function(c.file, c.qualname)[1]["kind"] == "staticmethod":
+                        yield from self.call_by_key(c, "static", node, st)      # obj.static_method(...): no receiver is bound
+                        return
+                except F.ExtractionError:
+                    pass
             yield from self.call_by_key(c, v, node, st, recv_node=node.func.value)
             return
         yield from self.call_container_method(v, attr, node, st)
@@ -265,6 +272,42 @@ class CallMixin(ExprMixin):
                 env[name] = O.coerce(dv, ty)
         return env, argkey
 
+    def pure_app(self, c, env, st):
+        """Result of a pure contract: an uninterpreted function of the arguments and of the fields of the records it reads."""
+        uf_args = [env[n] for n in sorted(env) if env[n].parts]
+        harrs = []
+        if c.note != "heap-independent":
+            recs = list(getattr(c, "reads", None) or [])
+            if not recs:
+                for n in sorted(env):
+                    t = env[n].ty
+                    t = t.args[0] if t.kind == "opt" else t
+                    if t.kind == "ref" and t.name in S.RECORDS:
+                        recs.append(t.name)
+            for rname in recs:
+                seen, todo = set(), [rname]
+                while todo:
+                    r = todo.pop()
+                    if r in seen or r not in S.RECORDS:
+                        continue
+                    seen.add(r)
+                    rec = S.RECORDS[r]
+                    for fld in sorted(rec.fields):
+                        harrs += st.heap.key_arrays(*S.lookup_field(r, fld)[:1], fld, rec.fields[fld])
+                    todo.extend(rec.bases)
+        parts = []
+        for a in uf_args:
+            parts += list(a.parts)
+        parts += harrs
+        sorts = [p.sort() for p in parts]
+        outp = []
+        for i, rs in enumerate(c.returns.sorts()):
+            key = ("pure:" + c.key, i, tuple(x.sexpr() for x in sorts))
+            if key not in _pure_fns:
+                _pure_fns[key] = z3.Function(f"pure_{c.key.replace('.', '_')}_{i}_{len(_pure_fns)}", *(sorts + [rs])) if parts else None
+            outp.append(_pure_fns[key](*parts) if parts else z3.Const(f"purec_{c.key}_{i}", rs))
+        return Val(c.returns, outp)
+
     # ---- contract application (modular: callers see only the contract) -------------------------
     def call_contract(self, c, recv, pos, kw, st, node, recv_node=None, arg_nodes=None):
         if c.inline == "generator":
@@ -304,39 +347,7 @@ class CallMixin(ExprMixin):
         # pure contracts are functions of their arguments and of the fields of the records they read
         pure_result = None
         if c.pure and not c.modifies and c.returns.kind != "none":
-            uf_args = [env[n] for n in sorted(env) if env[n].parts]
-            harrs = []
-            if c.note != "heap-independent":
-                recs = list(getattr(c, "reads", None) or [])
-                if not recs:
-                    for n in sorted(env):
-                        t = env[n].ty
-                        t = t.args[0] if t.kind == "opt" else t
-                        if t.kind == "ref" and t.name in S.RECORDS:
-                            recs.append(t.name)
-                for rname in recs:
-                    seen, todo = set(), [rname]
-                    while todo:
-                        r = todo.pop()
-                        if r in seen or r not in S.RECORDS:
-                            continue
-                        seen.add(r)
-                        rec = S.RECORDS[r]
-                        for fld in sorted(rec.fields):
-                            harrs += st.heap.key_arrays(*S.lookup_field(r, fld)[:1], fld, rec.fields[fld])
-                        todo.extend(rec.bases)
-            parts = []
-            for a in uf_args:
-                parts += list(a.parts)
-            parts += harrs
-            sorts = [p.sort() for p in parts]
-            outp = []
-            for i, rs in enumerate(c.returns.sorts()):
-                key = ("pure:" + c.key, i, tuple(x.sexpr() for x in sorts))
-                if key not in _pure_fns:
-                    _pure_fns[key] = z3.Function(f"pure_{c.key.replace('.', '_')}_{i}_{len(_pure_fns)}", *(sorts + [rs])) if parts else None
-                outp.append(_pure_fns[key](*parts) if parts else z3.Const(f"purec_{c.key}_{i}", rs))
-            pure_result = Val(c.returns, outp)
+            pure_result = self.pure_app(c, env, st)
         memo_key = None
         post_env = dict(env)
         modified_params = []
@@ -1197,22 +1208,34 @@ class CallMixin(ExprMixin):
                 continue
             var = g.target.id
             facts = []
-            kf = lambda x: SpecEval(self, s, s, {var: x}, facts).ev(self.pure_expr(node.key, s))
-            vf = lambda x: SpecEval(self, s, s, {var: x}, facts).ev(self.pure_expr(node.value, s))
             n = V.list_len(src)
+            i = z3.Int(V.fresh_name("qi"))
+            hname = V.fresh_name("last_idx")
+            mark = V.fresh_mark()
+
+            def under(expr, arg, bound):
+                # facts produced for a term that mentions a bound variable are generalised over it (speceval.generalize_facts)
+                local = []
+                v = SpecEval(self, s, s, {var: arg}, local).ev(self.pure_expr(expr, s))
+                try:
+                    facts.extend(generalize_facts(local, bound, mark, "the dict comprehension"))
+                except SpecError as exc:
+                    raise UnsupportedError(str(exc))
+                return v
+            kf = lambda a, bound=(): under(node.key, a, bound)
+            vf = lambda a, bound=(): under(node.value, a, bound)
             ksample = kf(V.list_get(src, z3.IntVal(0)))
             vsample = vf(V.list_get(src, z3.IntVal(0)))
             d = V.fresh(T.DictT(ksample.ty, vsample.ty), "Dcomp")
             (ks,) = ksample.ty.sorts()
-            i = z3.Int(V.fresh_name("qi"))
             x = z3.Const(V.fresh_name("qx"), ks)
-            h = z3.Function(V.fresh_name("last_idx"), ks, z3.IntSort())
+            h = z3.Function(hname, ks, z3.IntSort())
             xv = Val(ksample.ty, [x])
             # every listed key is present; each present key maps to the LAST element with that key
-            s.assume(z3.ForAll([i], z3.Implies(z3.And(0 <= i, i < n), V.dict_has(d, kf(V.list_get(src, i))))))
+            s.assume(z3.ForAll([i], z3.Implies(z3.And(0 <= i, i < n), V.dict_has(d, kf(V.list_get(src, i), [i])))))
             s.assume(z3.ForAll([x], z3.Implies(V.dict_has(d, xv), z3.And(
-                0 <= h(x), h(x) < n, kf(V.list_get(src, h(x))).t == x, V.eq(V.dict_get(d, xv), vf(V.list_get(src, h(x))))))))
-            s.assume(z3.ForAll([x, i], z3.Implies(z3.And(V.dict_has(d, xv), h(x) < i, i < n), kf(V.list_get(src, i)).t != x)))
+                0 <= h(x), h(x) < n, kf(V.list_get(src, h(x)), [x]).t == x, V.eq(V.dict_get(d, xv), vf(V.list_get(src, h(x)), [x]))))))
+            s.assume(z3.ForAll([x, i], z3.Implies(z3.And(V.dict_has(d, xv), h(x) < i, i < n), kf(V.list_get(src, i), [i]).t != x)))
             s.assume(*facts)
             s.assume(n >= 0)
             yield d, s
@@ -1228,6 +1251,8 @@ class CallMixin(ExprMixin):
                 f = n.func
                 ok = isinstance(f, ast.Attribute) and f.attr in ("intersection", "difference", "union", "issubset", "get", "copy")
                 ok = ok or (isinstance(f, ast.Name) and f.id in ("len", "str", "int", "min", "max"))
+                if not ok and isinstance(f, ast.Attribute) and not n.keywords:
+                    ok = any(k.endswith("." + f.attr) and c.pure and not c.modifies and not c.requires and not c.raises for k, c in S.CONTRACTS.items())
                 if not ok:
                     raise UnsupportedError(f"call `{ast.unparse(n)[:50]}` inside a comprehension (line {getattr(n, 'lineno', '?')})")
         return expr
